@@ -239,17 +239,38 @@ def substances_ok(M, texts, natural):
     return None
 
 
+class CUT(Exception):
+    """an exception raised by the code under test where the property needs a result"""
+
+
+def cut(what, fn):
+    try:
+        return fn()
+    except Exception as e:
+        raise CUT(what, e)
+
+
 def run_case(case, ctx):
+    mon = dict(fraction_rows_checked=0, sum_rows_checked=0, scaling_twins_compared=0, duality_twins_compared=0)
+    devs, classes = [], set()
+    try:
+        return _run_case(case, ctx, classes, mon, devs)
+    except CUT as c:
+        what, e = c.args
+        devs.append(dev('%s-raises:%s' % (what, type(e).__name__), dict(exc=repr(e)[:300])))
+        return _finish(ctx, outcome(classes=sorted(classes), nontrivial=False, fp=repr(case)[:400], dev=devs, monitors=mon,
+                                    sample=dict(case=case['t'], deviations=[d['mech'] for d in devs])))
+
+
+def _run_case(case, ctx, classes, mon, devs):
     M, T = ctx['M'], ctx['T']
     natural, k = case['natural'], case.get('k', 1.0)
-    mon = dict(fraction_rows_checked=0, sum_rows_checked=0, scaling_twins_compared=0, duality_twins_compared=0)
-    devs = []
-    classes = {'natural' if natural else 'most-abundant', 'scaling-k<1' if k < 1 else 'scaling-k>1'}
+    classes.add('natural' if natural else 'most-abundant')
+    if case['t'] == 'arith':
+        return _finish(ctx, run_arith(case, ctx, classes, mon, devs))
+    classes.add('scaling-k<1' if k < 1 else 'scaling-k>1')
     if case['t'] == 'substance':
         return _finish(ctx, run_substance(case, ctx, classes, mon, devs))
-    if case['t'] == 'arith':
-        classes = {'natural' if natural else 'most-abundant'}
-        return _finish(ctx, run_arith(case, ctx, classes, mon, devs))
     norm = case['norm']
     NORM = M.Norm.NUMBER_FRACTION if norm == 'number' else M.Norm.MASS_FRACTION
     classes.add('material-number-fraction' if norm == 'number' else 'material-mass-fraction')
@@ -295,20 +316,20 @@ def run_case(case, ctx):
         ex, eX = expected_fractions([given[t] for t in given], [mass[t] for t in given], norm)
         sample.update(expected_x=dict(zip(given, ex)), expected_X=dict(zip(given, eX)))
         # ---- scaling twin
-        B = M.Material({t: k * a for t, a in given.items()}, natural=natural, norm_type=NORM)
-        obsB = read_composite(B, 'fraction')
+        obsB = cut('scaled-material', lambda: read_composite(
+            M.Material({t: k * a for t, a in given.items()}, natural=natural, norm_type=NORM), 'fraction'))
         mon['scaling_twins_compared'] += 1
         same_fractions('scaling', obsA, obsB, devs, dict(k=k, norm=norm))
         # ---- duality twin
         if norm == 'number':
             classes.add('duality-number-to-mass')
-            D = M.Material({t: X[t] for t in given}, natural=natural, norm_type=M.Norm.MASS_FRACTION)
+            D = lambda: M.Material({t: X[t] for t in given}, natural=natural, norm_type=M.Norm.MASS_FRACTION)
             tag = 'duality-number-to-mass'
         else:
             classes.add('duality-mass-to-number')
-            D = M.Material({t: x[t] for t in given}, natural=natural, norm_type=M.Norm.NUMBER_FRACTION)
+            D = lambda: M.Material({t: x[t] for t in given}, natural=natural, norm_type=M.Norm.NUMBER_FRACTION)
             tag = 'duality-mass-to-number'
-        obsD = read_composite(D, 'fraction')
+        obsD = cut('dual-material', lambda: read_composite(D(), 'fraction'))
         mon['duality_twins_compared'] += 1
         same_fractions(tag, obsA, obsD, devs, dict(norm=norm))
         sample.update(dual_x=obsD[3], dual_X=obsD[4])
@@ -334,7 +355,7 @@ def run_substance(case, ctx, classes, mon, devs):
         A = M.Substance(text if case['form'] == 'string' else dict(counts), natural=natural)
     except Exception as e:
         return outcome(skip='component formula rejected (C10 domain)')
-    obsA = read_composite(A, 'count')
+    obsA = cut('substance-tables', lambda: read_composite(A, 'count'))
     given = {t: float(c) for t, c in counts.items()}
     if len(given) == 1:
         classes.add('single-component')
@@ -346,13 +367,12 @@ def run_substance(case, ctx, classes, mon, devs):
     if ok:
         ex, eX = expected_fractions([given[t] for t in given], [mass[t] for t in given], 'number')
         sample.update(expected_x=dict(zip(given, ex)), expected_X=dict(zip(given, eX)))
-        B = A * k
-        obsB = read_composite(B, 'count')
+        obsB = cut('substance*k', lambda: read_composite(A * k, 'count'))
         mon['scaling_twins_compared'] += 1
         same_fractions('substance-scaling(*k)', obsA, obsB, devs, dict(k=k))
-        C = M.Substance({t: k * c for t, c in given.items()}, natural=natural)
+        obsC = cut('scaled-substance', lambda: read_composite(M.Substance({t: k * c for t, c in given.items()}, natural=natural), 'count'))
         mon['scaling_twins_compared'] += 1
-        same_fractions('substance-scaling(dict)', obsA, read_composite(C, 'count'), devs, dict(k=k))
+        same_fractions('substance-scaling(dict)', obsA, obsC, devs, dict(k=k))
     prods = sorted(given[t] * mass[t] for t in given) if set(mass) == set(given) else []
     nontrivial = len(given) >= 2 and all(not close(a, b, 1e-6) for a, b in zip(prods, prods[1:]))
     if devs:
@@ -382,15 +402,14 @@ def run_arith(case, ctx, classes, mon, devs):
         given = {t: float(c) for t, c in ca.items()}
         if op == 'add':
             classes.add('composite-from-addition')
-            C = A + B
+            C = cut('substance+substance', lambda: A + B)
             for t, c in cb.items():
                 given[t] = given.get(t, 0.0) + c
             shown = '%s + %s' % (ta, tb)
         else:
             classes.add('composite-from-add-method')
             first = list(ca)[0]
-            A.add(et, case['n'])
-            A.add(first, case['n'])
+            cut('substance.add', lambda: (A.add(et, case['n']), A.add(first, case['n'])))
             C = A
             given[et] = given.get(et, 0.0) + case['n']
             given[first] = given.get(first, 0.0) + case['n']
@@ -409,12 +428,11 @@ def run_arith(case, ctx, classes, mon, devs):
         why = substances_ok(M, list(da) + list(db), natural)
         if why:
             return outcome(skip='component formula rejected (C10 domain)')
-        A = M.Material(dict(da), natural=natural, norm_type=NORM)
+        A = cut('material-construction', lambda: M.Material(dict(da), natural=natural, norm_type=NORM))
         given = dict(da)
         if op == 'add':
             classes.add('composite-from-addition')
-            B = M.Material(dict(db), natural=natural, norm_type=NORM)
-            C = A + B
+            C = cut('material+material', lambda: A + M.Material(dict(db), natural=natural, norm_type=NORM))
             for t, c in db.items():
                 given[t] = given.get(t, 0.0) + c
             if set(da) & set(db):
@@ -422,20 +440,20 @@ def run_arith(case, ctx, classes, mon, devs):
             shown = 'Material(%r) + Material(%r)' % (da, db)
         elif op == 'rmul':
             classes.add('composite-from-number-times-material')
-            C = case['k'] * A
+            C = cut('number*material', lambda: case['k'] * A)
             given = {t: case['k'] * c for t, c in da.items()}
             shown = '%r * Material(%r)' % (case['k'], da)
         else:
             classes.add('composite-from-add-method')
             for t, c in db.items():
-                A.add(t, c)
+                cut('material.add', lambda: A.add(t, c))
                 given[t] = given.get(t, 0.0) + c
             if set(da) & set(db):
                 classes.add('shared-component-accumulated')
             C = A
             shown = 'Material(%r).add(..%r)' % (da, db)
         col, tag = 'fraction', 'material-result:'
-    obs = read_composite(C, col)
+    obs = cut('result-tables', lambda: read_composite(C, col))
     check_fractions(tag, given, norm, obs, devs, mon)
     order, amt, mass, x, X, srow = obs
     sample = dict(kind=case['kind'] + ' ' + op, natural=natural, norm=norm, expression=shown, accumulated_amounts=given,
